@@ -32,10 +32,23 @@ def loops(faults, extra=None):
     return d
 
 
+TIER = "quick"        # set by queries(tier) of the socket modules: quick queries get a 600 s cap
+
+
+def open_ids():
+    """ids of the open known findings (harness defines are also passed explicitly so that the part modules behave the same
+    when run on their own as ./check C18_sock etc.)"""
+    import vf
+    return {f["id"] for f in vf.load_findings() if f.get("status") == "open"}
+
+
 def sq(name, harness, defs=(), faults=2, extra_loops=None, errrec=True, **kw):
     """one socket query; errrec=True: error recorder instead of the real p_error_set_error_p"""
-    kw.setdefault("timeout", 900)
+    kw.setdefault("timeout", 600 if TIER == "quick" else 3000)
     kw.setdefault("object_bits", 10)
+    # backstop for loops that are not in the unwindset (e.g. a loop introduced by an edit of the library): every constant-bound
+    # loop of harness and models has < 30 iterations, so a runaway loop ends as an unwinding-assertion failure within seconds
+    kw.setdefault("unwind", 30)
     models = MODELS + ([ERRREC] if errrec else [])
     defs = ["FAULTS=%d" % faults] + (["ERRREC"] if errrec else []) + list(defs)
     return Q(name, harness, units=UNITS, models=models, includes=INCLUDES, defs=defs,
